@@ -16,6 +16,9 @@ pub fn run(tier: Tier, seed: u64) {
     let d = if tier == Tier::Quick { 1 } else { 2 };
     eng::bound(&format!("every draw may be zero / the identity; paths with at most {} degenerate draws per call (each followed by its retry); N in {{1,2,3,5}} (+8,13 thorough)", d));
     crate::for_each_n!(tier, keys, seed, d);
+    // two consecutive degenerate draws (a retry that is itself degenerate) for the small instantiations, in both tiers
+    keys::<1>(seed, 2);
+    keys::<2>(seed, 2);
     pedersen::<G1Projective, 3>(seed, d);
     pedersen::<G2Projective, 3>(seed, d);
     range_params(seed, tier);
